@@ -5,7 +5,7 @@ for a built-in or user markup snippet; snippet resolution that does not return w
 logical step budget or nests deeper than the number of snippets."""
 import re
 
-from .. import core, outparse, probes
+from .. import core, hostile, outparse, probes
 
 ID = 'C14'
 RULE = ('metamorphic pairs on the real code: every built-in markup snippet of html / xsl / pug x 7 syntaxes x suffix forms (none, .c[x=1], {t}, *2, /, >b, >itself, '
@@ -110,7 +110,7 @@ class Mon:
     def __init__(self, ctx):
         import emmet
         self.ctx = ctx
-        self.expand = emmet.expand
+        self.expand = hostile.wrap(emmet.expand, ctx)
 
     def pair(self, label, alias, defn, cfg, cls, mon):
         ctx = self.ctx
